@@ -57,7 +57,19 @@ Section Statements.
     forall alpha (xs : E) (st : gm_state ROps E), 0 < alpha -> alpha * Lf <= 1 -> 1 <= gm_t st ->
       fista_pot E f g alpha xs (step true alpha st) <= fista_pot E f g alpha xs st.
   Proof. exact (fista_pot_step E f g gradf prox Lf). Qed.
+
+  (* the stopping quantity: resid = 0 (accelerated: max(||x - x_old||, ||x - z||)/alpha = 0) happens only at a
+     fixed point of the forward-backward map, which is a global minimiser of f + g *)
+  Theorem C13_gm_resid_zero_is_minimiser :
+    Hconv -> Hdesc -> Hprox ->
+    forall acc alpha (st : gm_state ROps E), 0 < alpha ->
+      gm_resid (step acc alpha st) = 0 ->
+      prox alpha (vplus (gm_x (step acc alpha st)) (vmul (- alpha) (gradf (gm_x (step acc alpha st)))))
+        = gm_x (step acc alpha st) /\
+      forall z, Fobj (gm_x (step acc alpha st)) <= Fobj z.
+  Proof. exact (gm_resid_zero_lemma E f g gradf prox Lf). Qed.
 End Statements.
+Print Assumptions C13_gm_resid_zero_is_minimiser.
 Print Assumptions C13_ista_descent.
 Print Assumptions C13_ista_monotone.
 Print Assumptions C13_ista_rate.
@@ -65,20 +77,22 @@ Print Assumptions C13_fista_rate.
 Print Assumptions C13_fista_potential.
 
 (* the data term of the tests / of LinearLeastSquares satisfies the two hypotheses on f *)
-Theorem C13_least_squares_is_admissible :
+Theorem C13_least_squares_convex :
+  forall (E1 E2 : IPS) (A : E1 -> E2) (AH : E2 -> E1) (y : E2),
+    (forall x x', A (vplus x x') = vplus (A x) (A x')) -> (forall a x, A (vmul a x) = vmul a (A x)) ->
+    (forall x u, ip (A x) u = ip x (AH u)) ->
+    forall x x', 1 / 2 * nrm2 (vminus (A x) y) + ip (AH (vminus (A x) y)) (vminus x' x) <= 1 / 2 * nrm2 (vminus (A x') y).
+Proof. exact quad_convex. Qed.
+Print Assumptions C13_least_squares_convex.
+
+Theorem C13_least_squares_descent :
   forall (E1 E2 : IPS) (A : E1 -> E2) (AH : E2 -> E1) (y : E2) (Lq : R),
     (forall x x', A (vplus x x') = vplus (A x) (A x')) -> (forall a x, A (vmul a x) = vmul a (A x)) ->
     (forall x u, ip (A x) u = ip x (AH u)) -> (forall x, nrm2 (A x) <= Lq * nrm2 x) ->
-    let f x := 1 / 2 * nrm2 (vminus (A x) y) in
-    let gradf x := AH (vminus (A x) y) in
-    (forall x x', f x + ip (gradf x) (vminus x' x) <= f x') /\
-    (forall x x', f x' <= f x + ip (gradf x) (vminus x' x) + Lq / 2 * nrm2 (vminus x' x)).
-Proof.
-  intros E1 E2 A AH y Lq H1 H2 H3 H4. split; intros x x'.
-  - exact (quad_convex E1 E2 A AH y H1 H2 H3 x x').
-  - exact (quad_descent E1 E2 A AH y Lq H1 H2 H3 H4 x x').
-Qed.
-Print Assumptions C13_least_squares_is_admissible.
+    forall x x', 1 / 2 * nrm2 (vminus (A x') y)
+                 <= 1 / 2 * nrm2 (vminus (A x) y) + ip (AH (vminus (A x) y)) (vminus x' x) + Lq / 2 * nrm2 (vminus x' x).
+Proof. exact quad_descent. Qed.
+Print Assumptions C13_least_squares_descent.
 
 (* ---- PDHG: saddle point <-> fixed point of the coded step ----------------------------------- *)
 Section PdhgStatements.
@@ -90,9 +104,9 @@ Section PdhgStatements.
   Variables (txact tinvx : TX -> X -> X) (txneg : TX -> TX) (txmuls txdivs : TX -> R -> TX) (txdivsqrt : X -> TX -> X).
   Variables (tuact tinvu : TU -> U -> U) (tumuls tudivs : TU -> R -> TU) (tudivsqrt : U -> TU -> U).
   Variables (proxfc : TU -> U -> U) (proxg : TX -> X -> X).
-  Let Hsteps :=
-    (forall t v, goodx t -> tinvx t (txact t v) = v) /\ (forall t v, goodu t -> tinvu t (tuact t v) = v) /\
-    (forall t v, txact (txneg t) v = txact t (vmul (-1) v)).
+  Let Hinvx := forall t v, goodx t -> tinvx t (txact t v) = v.
+  Let Hinvu := forall t v, goodu t -> tinvu t (tuact t v) = v.
+  Let Hneg := forall t v, txact (txneg t) v = txact t (vmul (-1) v).
   Let Hproxg := forall t v p, goodx t ->
     (proxg t v = p <-> forall z, g p + ip (tinvx t (vminus v p)) (vminus z p) <= g z).
   Let Hproxfc := forall t v p, goodu t ->
@@ -105,7 +119,7 @@ Section PdhgStatements.
     (forall w, fc us + ip (A xs) (vminus w us) <= fc w).
 
   Theorem C13_pdhg_fixed :
-    Hsteps -> Hproxg -> Hproxfc ->
+    Hinvx -> Hinvu -> Hneg -> Hproxg -> Hproxfc ->
     forall theta gamma_primal gamma_dual st xs us,
       goodx (pd_tau st) -> goodu (pd_sigma st) -> is_saddle xs us ->
       pd_x st = xs -> pd_u st = us -> pd_xext st = xs ->
@@ -113,22 +127,20 @@ Section PdhgStatements.
       pd_u (pstep theta gamma_primal gamma_dual st) = us /\
       pd_xext (pstep theta gamma_primal gamma_dual st) = xs.
   Proof.
-    intros (H1 & H2 & H3).
     exact (pdhg_fixed_lemma X U A AH g fc TX TU goodx goodu txact tinvx txneg txmuls txdivs txdivsqrt
-                            tuact tinvu tumuls tudivs tudivsqrt proxfc proxg H1 H2 H3).
+                            tuact tinvu tumuls tudivs tudivsqrt proxfc proxg).
   Qed.
 
   Theorem C13_pdhg_fixed_conv :
-    Hsteps -> Hproxg -> Hproxfc ->
+    Hinvx -> Hinvu -> Hneg -> Hproxg -> Hproxfc ->
     forall theta gamma_primal gamma_dual st,
       goodx (pd_tau st) -> goodu (pd_sigma st) -> pd_xext st = pd_x st ->
       pd_x (pstep theta gamma_primal gamma_dual st) = pd_x st ->
       pd_u (pstep theta gamma_primal gamma_dual st) = pd_u st ->
       is_saddle (pd_x st) (pd_u st).
   Proof.
-    intros (H1 & H2 & H3).
     exact (pdhg_fixed_conv_lemma X U A AH g fc TX TU goodx goodu txact tinvx txneg txmuls txdivs txdivsqrt
-                                 tuact tinvu tumuls tudivs tudivsqrt proxfc proxg H1 H2 H3).
+                                 tuact tinvu tumuls tudivs tudivsqrt proxfc proxg).
   Qed.
 End PdhgStatements.
 Print Assumptions C13_pdhg_fixed.
@@ -139,8 +151,9 @@ Section PdhgScalar.
   Variables X U : IPS.
   Variables (A : X -> U) (AH : U -> X) (g : X -> R) (fc : U -> R).
   Variables (proxfc : R -> U -> U) (proxg : R -> X -> X).
-  Let Hlin := (forall x y, A (vplus x y) = vplus (A x) (A y)) /\ (forall a x, A (vmul a x) = vmul a (A x)) /\
-              (forall x u, ip (A x) u = ip x (AH u)).
+  Let Hadd := forall x y, A (vplus x y) = vplus (A x) (A y).
+  Let Hhom := forall a x, A (vmul a x) = vmul a (A x).
+  Let Hadj := forall x u, ip (A x) u = ip x (AH u).
   Let Hproxg := forall a v p, 0 < a ->
     (proxg a v = p <-> forall z, g p + ip (vmul (/ a) (vminus v p)) (vminus z p) <= g z).
   Let Hproxfc := forall a v p, 0 < a ->
@@ -173,32 +186,38 @@ Section PdhgScalar.
   (* theta = 1, constant steps: proximal-point inequality in the SKEWED pairing w_k = (x_k, u_{k+1})
      (x before the update, u after it; the dual is updated first from the extrapolated primal) *)
   Theorem C13_pdhg_fejer_step :
-    Hlin -> Hproxg -> Hproxfc ->
+    Hadd -> Hhom -> Hadj -> Hproxg -> Hproxfc ->
     forall (st : pd_state ROps X U R R) xs us, 0 < pd_tau st -> 0 < pd_sigma st -> is_saddle xs us ->
       let st1 := sstep 1 0 0 st in
       let st2 := sstep 1 0 0 st1 in
       Mnorm2 (pd_tau st) (pd_sigma st) (vminus (pd_x st1) xs) (vminus (pd_u st2) us)
         <= Mnorm2 (pd_tau st) (pd_sigma st) (vminus (pd_x st) xs) (vminus (pd_u st1) us)
            - Mnorm2 (pd_tau st) (pd_sigma st) (vminus (pd_x st1) (pd_x st)) (vminus (pd_u st2) (pd_u st1)).
-  Proof.
-    intros (H1 & H2 & H3).
-    exact (pdhg_fejer_step X U A AH g fc proxfc proxg H1 H2 H3).
-  Qed.
+  Proof. exact (pdhg_fejer_step X U A AH g fc proxfc proxg). Qed.
 
   (* with tau * sigma * ||A||^2 <= 1 the M-distance of (x_k, u_{k+1}) to a saddle point is non-increasing in k *)
   Theorem C13_pdhg_fejer :
-    Hlin -> Hproxg -> Hproxfc ->
+    Hadd -> Hhom -> Hadj -> Hproxg -> Hproxfc ->
     forall (st : pd_state ROps X U R R) xs us Lnorm2 k,
       0 < pd_tau st -> 0 < pd_sigma st -> is_saddle xs us ->
       (forall x, nrm2 (A x) <= Lnorm2 * nrm2 x) -> pd_tau st * pd_sigma st * Lnorm2 <= 1 ->
       let d j := Mnorm2 (pd_tau st) (pd_sigma st) (vminus (pd_x (siter 1 0 0 j st)) xs)
                         (vminus (pd_u (siter 1 0 0 (S j) st)) us) in
       0 <= d (S k) <= d k.
-  Proof.
-    intros (H1 & H2 & H3).
-    exact (pdhg_fejer_lemma X U A AH g fc proxfc proxg H1 H2 H3).
-  Qed.
+  Proof. exact (pdhg_fejer_lemma X U A AH g fc proxfc proxg). Qed.
+
+  (* corollary: the M-lengths of the steps are summable, sum_{j<n} ||w_{j+1} - w_j||_M^2 + d_n <= d_0 *)
+  Theorem C13_pdhg_fejer_sum :
+    Hadd -> Hhom -> Hadj -> Hproxg -> Hproxfc ->
+    forall (st : pd_state ROps X U R R) xs us n, 0 < pd_tau st -> 0 < pd_sigma st -> is_saddle xs us ->
+      let d j := Mnorm2 (pd_tau st) (pd_sigma st) (vminus (pd_x (siter 1 0 0 j st)) xs)
+                        (vminus (pd_u (siter 1 0 0 (S j) st)) us) in
+      let len j := Mnorm2 (pd_tau st) (pd_sigma st) (vminus (pd_x (siter 1 0 0 (S j) st)) (pd_x (siter 1 0 0 j st)))
+                          (vminus (pd_u (siter 1 0 0 (S (S j)) st)) (pd_u (siter 1 0 0 (S j) st))) in
+      sumf len n + d n <= d 0%nat.
+  Proof. exact (pdhg_fejer_sum X U A AH g fc proxfc proxg). Qed.
 End PdhgScalar.
+Print Assumptions C13_pdhg_fejer_sum.
 Print Assumptions C13_pdhg_fixed_along_schedule.
 Print Assumptions C13_pdhg_fejer_step.
 Print Assumptions C13_pdhg_fejer.
